@@ -49,11 +49,13 @@ class Rule:
     nontrivial: int = 0
     findings: list = field(default_factory=list)
     floor: int = 0  # minimum instance count confirmed by hand
+    nontrivial_set: set = field(default_factory=set)
 
     def inst(self, desc: str, nontrivial: bool = True) -> None:
         self.instances.append(desc)
         if nontrivial:
             self.nontrivial += 1
+            self.nontrivial_set.add(desc)
 
     def fail(self, construct: str, message: str, *, file: str = "", line: int = 0, stmt: str = "",
              witness: Any = None) -> None:
@@ -113,10 +115,11 @@ class Report:
         cov: dict = {
             "explanation": self.explanation,
             "evaluations": obligations,
-            "distinct_nontrivial": sum(r.nontrivial for r in self.rules),
+            "distinct_nontrivial": len(set().union(*[r.nontrivial_set for r in self.rules])) if self.rules else 0,
             "rule": "one evaluation = one rule instance examined on the current source tree (a premise of the "
                     "property's argument applied to one construct); non-trivial = the instance needed resolution "
-                    "of the program (folded constant, term, automaton, path set), i.e. is not true by construction",
+                    "of the program (folded constant, term, automaton, path set), i.e. is not true by construction; distinct = distinct "
+                    "instance descriptions, so a premise shared by several rules of one check is counted once",
             "samples": samples[:60],
             "obligations": obligations,
             "discharged": max(0, obligations - failed_instances),
@@ -137,7 +140,7 @@ class Report:
             "seed": int(os.environ.get("VERIF_SEED", "0") or 0),
             "level": self.level,
             "coverage": cov,
-            "assumptions": self.assumptions,
+            "assumptions": self.assumptions + [f"trusted: {t}" for t in self.trusted],
             "wall_s": round(wall, 3),
             "violations": len(new),
         }
